@@ -212,6 +212,25 @@ def check_call(api, before, circuit, operands, outputs, fn, *, weighted=None, ba
 
 # ------------------------------------------------------------------ host circuits
 
+_LIB_STRINGS = None
+
+
+def library_strings():
+    """Module-level string constants of the generation package (what `from ... import *` style code can see): valid
+    labels like any other string."""
+    global _LIB_STRINGS
+    if _LIB_STRINGS is None:
+        import sys
+        out = set()
+        for name, mod in list(sys.modules.items()):
+            if name.startswith('cirbo.synthesis.generation') and mod is not None:
+                for k, v in list(vars(mod).items()):
+                    if isinstance(v, str) and not k.startswith('__') and 0 < len(v) <= 40 and '\n' not in v and ' ' not in v:
+                        out.add(v)
+        _LIB_STRINGS = sorted(out)
+    return _LIB_STRINGS
+
+
 def make_host(rng, k_inputs=None, n_gates=None):
     """Random host circuit (reference net) whose gates may serve as operand bits."""
     k = k_inputs if k_inputs is not None else rng.randint(2, 8)
@@ -219,12 +238,14 @@ def make_host(rng, k_inputs=None, n_gates=None):
     net = netgen.rand_net(rng, n_in=k, n_g=g, shape=rng.choice(['random', 'wide', 'diamond']),
                           types=['AND', 'OR', 'XOR', 'NOT', 'NAND', 'GT', 'NXOR', 'IFF', 'LEQ'], max_arity=3,
                           n_out=rng.randint(0, 2), const_operands=False, label_style=rng.choice(['plain', 'digits']))
-    if rng.random() < 0.3 and FIXED_LABELS:
-        # a host that happens to use names the generators themselves like to use (with other functions)
+    lib = library_strings()
+    if rng.random() < 0.3 and (FIXED_LABELS or lib):
+        # a host that happens to use names the generators themselves like to use (with other functions), or the
+        # library's own exported string constants (sentinels, prefixes) as labels
         pool = sorted(FIXED_LABELS)
         mp = {}
         for l in rng.sample(list(net.gates), min(len(net.gates), rng.randint(1, 3))):
-            nl = rng.choice(pool)
+            nl = rng.choice(lib) if lib and (not pool or rng.random() < 0.4) else rng.choice(pool)
             if nl not in net.gates and nl not in mp.values():
                 mp[l] = nl
         if mp:
